@@ -92,6 +92,12 @@ def _apply_one(cx, rules, tag):
                     cx.assume("internal error %s in %s unreachable: %s" % (kind, fn, ent["reason"]))
                     break
         cx.ob(o["rule"], o["key"], ok, o["site"], detail + (" [modes: %s]" % ",".join(o.get("modes", [])[:4])))
+    per_rule_keys = {}
+    for o in d["obs"]:
+        if o["rule"] in rules:
+            per_rule_keys.setdefault(o["rule"], set()).add(o["key"])
+    for rule, ks in per_rule_keys.items():
+        cx.count(rule, "keys", max(len(ks), cx.counts.get(rule, {}).get("keys", 0)))
     for rule, ms in d["counts"].items():
         if rule in rules:
             for m, n in ms.items():
